@@ -135,6 +135,11 @@ class CEval(object):
                 if base.pt.args[1].kind == 'cell':
                     return SV(TCell, Ite(present, v.t, ptypes.CI(IntC(0))))
             return v
+        if base.pt.kind == 'recdict':
+            f = ptypes.recdict_field(base.pt, base.t, ast.literal_eval(n.slice))
+            if f is None:
+                raise OutOfSubset('contract: key %s is not declared for this record dict' % ast.unparse(n.slice))
+            return f[1]
         if base.pt.kind == 'map':
             key = self.ex.coerce(self.ev(n.slice), base.pt.args[0])
             return SV(base.pt.args[1], Select(base.t, key.t))
@@ -190,6 +195,8 @@ class CEval(object):
             return a, b
         if a.pt.kind == 'mtag' or b.pt.kind == 'mtag':
             return self.ex.coerce(a, PT('mtag')), self.ex.coerce(b, PT('mtag'))
+        if a.pt.kind == 'opt' and a.pt.args[0].kind == 'mtag' and b.pt.kind == 'mtag':
+            return SV(PT('mtag'), a.t), b
         if a.pt.kind in ('list', 'pytuple', 'emptylist') or b.pt.kind in ('list', 'pytuple', 'emptylist'):
             if a.pt.kind == 'emptylist' and b.pt.kind in ('seq',):
                 return SV(b.pt, Empty(sort_of(b.pt))), b
@@ -335,13 +342,30 @@ class CEval(object):
         le = self.loop_entry
         if le is None:
             raise OutOfSubset('at_loop_entry() outside loop invariant')
-        return CEval(self.ex, le, self.entry, self.result, le, le.locals, self.sink).ev(n.args[0])
+        return CEval(self.ex, le, self.entry, self.result, le, self._with_bound(le.locals), self.sink).ev(n.args[0])
+
+    def _with_bound(self, locals_):
+        """locals of another program point plus the quantifier-bound variables in scope here"""
+        extra = dict((k, v) for k, v in self.locals.items() if getattr(v, 't', None) is not None and getattr(v.t, 'op', None) == 'bvar')
+        if not extra:
+            return locals_
+        loc = dict(locals_)
+        loc.update(extra)
+        return loc
 
     def i_at_iter_start(self, n):
         it = getattr(self.ex, 'iter_start', None)
         if it is None:
             raise OutOfSubset('at_iter_start() outside a loop body')
-        return CEval(self.ex, it, self.entry, self.result, self.loop_entry, it.locals, self.sink).ev(n.args[0])
+        if isinstance(n.args[0], ast.Lambda):
+            # at_iter_start(lambda k: e, v): e in the iteration-start state with k bound to the value v has *now*
+            lam = n.args[0]
+            vals = [self.ev(a) for a in n.args[1:]]
+            loc = dict(self._with_bound(it.locals))
+            for a, v in zip(lam.args.args, vals):
+                loc[a.arg] = v
+            return CEval(self.ex, it, self.entry, self.result, self.loop_entry, loc, self.sink).ev(lam.body)
+        return CEval(self.ex, it, self.entry, self.result, self.loop_entry, self._with_bound(it.locals), self.sink).ev(n.args[0])
 
     def i_len(self, n):
         v = self.ev(n.args[0])
@@ -389,7 +413,17 @@ class CEval(object):
             bv = BVar('%s_%d' % (nm, n.lineno), sort_of(pt))
             bvs.append(bv)
             loc[nm] = SV(pt, bv)
-        body = self.sub(self.st, loc).boolean(lam.body)
+        sub = self.sub(self.st, loc)
+        body = sub.boolean(lam.body)
+        pats = []
+        for kw in n.keywords:
+            if kw.arg == 'trigger':
+                # instantiation pattern(s): expressions over the bound variables, e.g. trigger=[self.hash_map[k]]
+                elts = kw.value.elts if isinstance(kw.value, (ast.List, ast.Tuple)) else [kw.value]
+                pats = [lam2 for lam2 in (ast.Lambda(args=lam.args, body=e) for e in elts)]
+                pats = [sub.ev(p.body).t for p in pats]
+        if pats and q is smt.ForAll:
+            return SV(TBool, smt.ForAll(bvs, body, pats))
         return SV(TBool, q(bvs, body))
 
     def i_forall(self, n):
@@ -474,6 +508,13 @@ class CEval(object):
             g = And(ptypes.dt_test('CObj', v.t), g)
         return SV(TBool, g)
 
+    def i_as_obj(self, n):
+        # as_obj(x, 'module.Class'): the same reference viewed at a subclass type (use under a typeof guard)
+        v = self.ev(n.args[0])
+        if v.pt.kind == 'opt':
+            v = SV(v.pt.args[0], v.t)
+        return SV(ptypes.TObj(ast.literal_eval(n.args[1])), v.t)
+
     def i_typeof_obj(self, n):
         v = self.ev(n.args[0])
         cls = self.ev(n.args[1])
@@ -504,6 +545,14 @@ class CEval(object):
 
     def i_cell(self, n):
         return self.ex.coerce(self.ev(n.args[0]), TCell)
+
+    def i_is_none_cell(self, n):
+        v = self.ex.coerce(self.ev(n.args[0]), TCell)
+        return SV(TBool, ptypes.cell_is_none(v.t))
+
+    def i_is_list_cell(self, n):
+        v = self.ex.coerce(self.ev(n.args[0]), TCell)
+        return SV(TBool, ptypes.dt_test('CL', v.t))
 
     def i_is_str(self, n):
         v = self.ex.coerce(self.ev(n.args[0]), TCell)
